@@ -492,6 +492,20 @@ def sys_liveness(tier, rng):
             for t in range(40 + T - 1, 40 + T + 3 + off):
                 steps += [{"a": "Tick", "to": t}, {"a": "Live", "name": "c3", "prov": prov}]
             behs.append({"cfg": {"policies": []}, "steps": steps, "tag": "live-late-stamp:%s:%+d" % (kind, off)})
+    # the condition changed after creation (Launched went False at t=20, Registered went False at t=20): the timeout runs
+    # from the condition's last transition, not from the claim's creation
+    for kind, T in (("launch", 300), ("registration", 900)):
+        prov = "err" if kind == "launch" else "ok"
+        if kind == "launch":
+            steps = [{"a": "Pool", "name": "p"}, claim_step("c3", "p", -1, "", launched="Unknown", registered="Unknown", instance=False),
+                     {"a": "Tick", "to": 20}, {"a": "SetClaim", "name": "c3", "launched": "False"}]
+        else:
+            steps = [{"a": "Pool", "name": "p"}, claim_step("c3", "p", -1, "i3", launched="True", registered="Unknown", instance=True),
+                     {"a": "Tick", "to": 20}, {"a": "SetClaim", "name": "c3", "registered": "False"}]
+        steps.append({"a": "Live", "name": "c3", "prov": prov})
+        for t in range(T - 2, T + 24):
+            steps += [{"a": "Tick", "to": t}, {"a": "Live", "name": "c3", "prov": prov}]
+        behs.append({"cfg": {"policies": []}, "steps": steps, "tag": "live-restamped:%s" % kind})
     return behs
 
 
